@@ -770,6 +770,11 @@ def get_time_maps_from_alignment(
             np.where(np.logical_and(score_onsets == u, score_durations > 0))[0]
             for u in score_unique_onsets
         ]
+        # onsets at which only ornaments were matched say nothing about
+        # the performed time of that score position
+        has_notes = np.array([len(u) > 0 for u in score_unique_onset_idxs], dtype=bool)
+        score_unique_onsets = score_unique_onsets[has_notes]
+        score_unique_onset_idxs = [u for u in score_unique_onset_idxs if len(u) > 0]
 
     else:
         score_unique_onset_idxs = [
